@@ -274,6 +274,7 @@ type GenOpt struct {
 	Op     string
 	N      int
 	Edge   bool
+	Spec   []GField
 	Over   bool // error stream: one uint64 with the high bit set
 	AllowKnown bool
 }
@@ -282,8 +283,11 @@ var mainTypes = []string{"Ints", "Scalars", "Nulls", "Sers", "Embs", "Defs", "Co
 var mapTypes = []string{"Ints", "Scalars", "Keyed", "Comp", "Embs"}
 
 func genInput(r *lib.Rng, id int, g GenOpt) Input {
+	if isGen(g.Type) {
+		registerGen(g.Type, g.Spec)
+	}
 	d := descOf(g.Type)
-	in := Input{Type: g.Type, NoRet: g.NoRet, Op: g.Op, Pre: lib.Pick(r, []int{0, 0, 3, 8})}
+	in := Input{Type: g.Type, Spec: g.Spec, NoRet: g.NoRet, Op: g.Op, Pre: lib.Pick(r, []int{0, 0, 3, 8})}
 	if g.Op == "batches" {
 		in.BS = r.Range(1, 4)
 		if g.Edge {
@@ -415,6 +419,9 @@ func hasSer(d *Desc) bool {
 
 // sig: known-finding signature computed from the INPUT only.
 func sig(in Input) string {
+	if isGen(in.Type) {
+		registerGen(in.Type, in.Spec)
+	}
 	d := descOf(in.Type)
 	if hasSer(d) && !in.NoMMap {
 		return "map-read-through-model-with-serializer-field"
@@ -479,7 +486,14 @@ func sig(in Input) string {
 func shape(in Input) string {
 	d := descOf(in.Type)
 	var sb strings.Builder
-	fmt.Fprintf(&sb, "%s|noret=%v|%s%d|pre%d|n%d|%s|", in.Type, in.NoRet, in.Op, in.BS, in.Pre, len(in.Recs), in.MapKeys)
+	tn := in.Type
+	if isGen(tn) {
+		tn = "gen"
+		for _, g := range in.Spec {
+			tn += "," + g.Go + ":" + g.Tag
+		}
+	}
+	fmt.Fprintf(&sb, "%s|noret=%v|%s%d|pre%d|n%d|%s|", tn, in.NoRet, in.Op, in.BS, in.Pre, len(in.Recs), in.MapKeys)
 	// per record: which columns are zero / nil / absent (the value classes the code branches on)
 	for _, r := range in.Recs {
 		for j, f := range d.Fields {
